@@ -84,6 +84,12 @@ def write_scad(ref, L, path, op):
                        f'      <evidenceDistribution type="Bernoulli">\n'
                        f'        <parameters name="probability" value="{a.defenses[d]!r}"/>\n'
                        f'      </evidenceDistribution>\n    </evidenceAttributes>\n')
+            elif op.get('empty_dist'):
+                # the way securiCAD itself exports a defense that was left at its default
+                ev += (f'    <evidenceAttributes metaConcept="{cap}">\n'
+                       f'      <evidenceDistribution type="Bernoulli">\n'
+                       f'        <parameters name="probability"/>\n'
+                       f'      </evidenceDistribution>\n    </evidenceAttributes>\n')
             else:
                 ev += f'    <evidenceAttributes metaConcept="{cap}"/>\n'
         objs.append(f'  <objects description="" id="{a.id}" name={quoteattr(a.name)} '
